@@ -171,6 +171,11 @@ func TestC01(t *testing.T) {
 			}
 			return
 		}
+		if rapid.IntRange(0, 24).Draw(rt, "part_reannounce") == 0 {
+			// the same table id announced again with another definition (a master restart hands ids out anew)
+			reannouncePart(rt, rec, "C01")
+			return
+		}
 		c := drawE2E(rt, o)
 		l, start, su, err := c.layout()
 		if err != nil {
